@@ -70,6 +70,11 @@ def run(ctx):
                  "--sched", " ".join(str(st[1][0]) for st in w if st[1])] for i, w in enumerate(walks)]
         ctx.notes["graph_edges:" + name] = nedges
         check_runs(ctx, binary, runs, "graph_" + name)
+    if not ctx.quick:
+        # beyond the exhaustively explored configurations: random simulation of the model (safety invariants only)
+        for name in ("c2f2_sim", "c3f1_sim"):
+            r = vlib.tlc(SPECDIR, "FuturePoolImpl", "FuturePoolImpl_%s.cfg" % name, workers=8, simulate=200000, depth=600, seed=ctx.seed, timeout=420, xmx="6g")
+            ctx.add_tlc("FuturePoolImpl_" + name + "(simulate)", r)
     # direction B: random and PCT schedules over clients x futures x pool sizes x queue capacities x modes
     nrand = 500 if ctx.quick else 12000
     runs = []
